@@ -38,7 +38,24 @@ type Recorder struct {
 	Hook func(event string, name string)
 	// SlowSnapshot makes SaveSnapshot / PrepareSnapshot take this long
 	SlowSnapshot time.Duration
+	// SlowRecover makes RecoverFromSnapshot take this long
+	SlowRecover time.Duration
 	busy         map[string]int // replica name -> snapshot related calls in progress
+	// ImagesBy: replica name -> applied index of every image handed to SaveSnapshot, in order
+	ImagesBy map[string][]uint64
+	// Created: replica name -> index of every locally created snapshot recorded in the log store
+	Created map[string][]uint64
+}
+
+// SnapshotCreated records the index a finished snapshot is stamped with.
+func (r *Recorder) SnapshotCreated(shard, replica, index uint64) {
+	r.mu.Lock()
+	defer r.mu.Unlock()
+	if r.Created == nil {
+		r.Created = map[string][]uint64{}
+	}
+	name := fmt.Sprintf("%d/%d", shard, replica)
+	r.Created[name] = append(r.Created[name], index)
 }
 
 // SnapshotBusy reports whether a SaveSnapshot/PrepareSnapshot call of the replica is in progress.
@@ -59,10 +76,13 @@ func (r *Recorder) hook(event string, name string) {
 	case "sm-save-exit", "sm-prepare-exit":
 		r.busy[name]--
 	}
-	slow := r.SlowSnapshot
+	slow, slowRecover := r.SlowSnapshot, r.SlowRecover
 	r.mu.Unlock()
 	if slow > 0 && (event == "sm-save-enter" || event == "sm-prepare-enter") {
 		time.Sleep(slow)
+	}
+	if slowRecover > 0 && event == "sm-recover-enter" {
+		time.Sleep(slowRecover)
 	}
 	if r.Hook != nil {
 		r.Hook(event, name)
@@ -107,6 +127,9 @@ type DiskImage struct {
 	SyncedI uint64
 	Work    map[string]string
 	WorkI   uint64
+	// number of Update calls folded into the image (part of the user state)
+	SyncedC uint64
+	WorkC   uint64
 }
 
 func NewDiskImage() *DiskImage {
@@ -122,6 +145,7 @@ func (d *DiskImage) PowerCut() {
 		d.Work[k] = v
 	}
 	d.WorkI = d.SyncedI
+	d.WorkC = d.SyncedC
 }
 
 // KVKind selects the user state machine interface.
@@ -263,6 +287,7 @@ func (c *kvCore) applyOne(index uint64, cmd []byte) sm.Result {
 	if c.disk != nil {
 		c.disk.mu.Lock()
 		c.disk.WorkI = index
+		c.disk.WorkC = c.count
 		c.disk.mu.Unlock()
 	}
 	c.mu.Unlock()
@@ -282,6 +307,10 @@ func (c *kvCore) lookup(q interface{}) (interface{}, error) {
 	}
 	if key == "\x00dump" {
 		return c.dumpLocked(), nil
+	}
+	if key == "\x00state" {
+		// the complete user state: applied index, number of Update calls folded in, data
+		return fmt.Sprintf("applied=%d count=%d data=%s", c.applied, c.count, c.dumpLocked()), nil
 	}
 	return c.data[key], nil
 }
@@ -328,9 +357,13 @@ func (img kvImage) dump() string {
 	return sb.String()
 }
 
-func (r *Recorder) saveImage(img kvImage) {
+func (r *Recorder) saveImage(name string, img kvImage) {
 	r.mu.Lock()
 	r.Images[img.Applied] = img.dump()
+	if r.ImagesBy == nil {
+		r.ImagesBy = map[string][]uint64{}
+	}
+	r.ImagesBy[name] = append(r.ImagesBy[name], img.Applied)
 	r.mu.Unlock()
 }
 
@@ -392,6 +425,7 @@ func (c *kvCore) install(img kvImage) {
 			c.disk.Work[k] = v
 		}
 		c.disk.WorkI = img.Applied
+		c.disk.WorkC = img.Count
 		c.disk.mu.Unlock()
 	}
 	// entries at or below the recovered index must not be delivered again
@@ -430,7 +464,7 @@ func (s *RegularKV) SaveSnapshot(w io.Writer, fc sm.ISnapshotFileCollection, sto
 	defer s.c.rec.hook("sm-save-exit", s.c.name)
 	s.c.widen()
 	img := s.c.image()
-	s.c.rec.saveImage(img)
+	s.c.rec.saveImage(s.c.name, img)
 	return writeImage(w, img, int(atomic.LoadInt32(&SnapshotPad)))
 }
 func (s *RegularKV) RecoverFromSnapshot(r io.Reader, files []sm.SnapshotFile, stop <-chan struct{}) error {
@@ -467,6 +501,10 @@ func (s *ConcurrentKV) PrepareSnapshot() (interface{}, error) {
 	defer atomic.AddInt32(&s.c.inPrepare, -1)
 	s.c.rec.hook("sm-prepare-enter", s.c.name)
 	defer s.c.rec.hook("sm-prepare-exit", s.c.name)
+	// PrepareSnapshot takes longer than one Update call: whatever is (wrongly) allowed
+	// to run beside it has finished by the time the image is captured
+	s.c.widen()
+	s.c.widen()
 	s.c.widen()
 	return s.c.image(), nil
 }
@@ -476,7 +514,7 @@ func (s *ConcurrentKV) SaveSnapshot(ctx interface{}, w io.Writer, fc sm.ISnapsho
 	s.c.rec.hook("sm-save-enter", s.c.name)
 	defer s.c.rec.hook("sm-save-exit", s.c.name)
 	s.c.widen()
-	s.c.rec.saveImage(ctx.(kvImage))
+	s.c.rec.saveImage(s.c.name, ctx.(kvImage))
 	return writeImage(w, ctx.(kvImage), int(atomic.LoadInt32(&SnapshotPad)))
 }
 func (s *ConcurrentKV) RecoverFromSnapshot(r io.Reader, files []sm.SnapshotFile, stop <-chan struct{}) error {
@@ -511,6 +549,7 @@ func (s *OnDiskKV) Open(stop <-chan struct{}) (uint64, error) {
 		s.c.data[k] = v
 	}
 	s.c.applied = d.WorkI
+	s.c.count = d.WorkC
 	s.c.mu.Unlock()
 	s.c.openIdx = d.WorkI
 	s.c.lastIndex = d.WorkI
@@ -537,6 +576,7 @@ func (s *OnDiskKV) Sync() error {
 		d.Synced[k] = v
 	}
 	d.SyncedI = d.WorkI
+	d.SyncedC = d.WorkC
 	return nil
 }
 func (s *OnDiskKV) PrepareSnapshot() (interface{}, error) {
@@ -544,6 +584,10 @@ func (s *OnDiskKV) PrepareSnapshot() (interface{}, error) {
 	defer atomic.AddInt32(&s.c.inPrepare, -1)
 	s.c.rec.hook("sm-prepare-enter", s.c.name)
 	defer s.c.rec.hook("sm-prepare-exit", s.c.name)
+	// PrepareSnapshot takes longer than one Update call: whatever is (wrongly) allowed
+	// to run beside it has finished by the time the image is captured
+	s.c.widen()
+	s.c.widen()
 	s.c.widen()
 	return s.c.image(), nil
 }
@@ -553,7 +597,7 @@ func (s *OnDiskKV) SaveSnapshot(ctx interface{}, w io.Writer, stop <-chan struct
 	s.c.rec.hook("sm-save-enter", s.c.name)
 	defer s.c.rec.hook("sm-save-exit", s.c.name)
 	s.c.widen()
-	s.c.rec.saveImage(ctx.(kvImage))
+	s.c.rec.saveImage(s.c.name, ctx.(kvImage))
 	return writeImage(w, ctx.(kvImage), int(atomic.LoadInt32(&SnapshotPad)))
 }
 func (s *OnDiskKV) RecoverFromSnapshot(r io.Reader, stop <-chan struct{}) error {
